@@ -80,6 +80,7 @@ func genFailModule(sc *Scenario) {
 func genPluginFiles(sc *Scenario) {
 	core := append(corePaths(sc), apiPaths(sc)...)
 	var taken []string // paths of earlier plugins
+	contentOf := map[string]string{}
 	for _, ps := range sc.Plugins {
 		n := simrt.Choice("c17.files", 4)
 		ps.Files = nil
@@ -90,10 +91,15 @@ func genPluginFiles(sc *Scenario) {
 				continue // one plugin naming one file twice is that plugin's own business
 			}
 			mine[cleanRel(pth)] = true
-			ps.Files = append(ps.Files, GenFile{Path: pth, Content: fmt.Sprintf("// %s wrote %q\npackage x\n", ps.ID(), pth)})
+			content := fmt.Sprintf("// %s wrote %q\npackage x\n", ps.ID(), pth)
+			if other, ok := contentOf[cleanRel(pth)]; ok && simrt.Flip("c17.same-content", 0.4) {
+				content = other // two sources, one path, identical bytes (a doc.go, an empty file): still two sources
+			}
+			ps.Files = append(ps.Files, GenFile{Path: pth, Content: content})
 		}
 		for _, f := range ps.Files {
 			taken = append(taken, f.Path)
+			contentOf[cleanRel(f.Path)] = f.Content
 		}
 	}
 }
